@@ -214,6 +214,24 @@ pub(super) fn verify_nsec3(
     }
 }
 
+/// Whether the NSEC3 record with the given owner name matches `name`, i.e. whether its first label
+/// is the hash of `name` under the record's own parameters.
+pub(super) fn nsec3_matches_name(owner: &Name, nsec3: &NSEC3, name: &Name) -> bool {
+    let Some(first_label) = owner.iter().next() else {
+        return false;
+    };
+    let Ok(hash) = nsec3
+        .hash_algorithm()
+        .hash(nsec3.salt(), name, nsec3.iterations())
+    else {
+        return false;
+    };
+    data_encoding::BASE32_DNSSEC
+        .encode(hash.as_ref())
+        .as_bytes()
+        .eq_ignore_ascii_case(first_label)
+}
+
 /// There is no such `query_name` in the zone and there's no wildcard that
 /// can be expanded to service this `query_name`.
 ///
